@@ -76,12 +76,16 @@ fn fingerprint<B: SimField, H: ElementHasher<BaseField = B>>(p: &Proof) -> Optio
         }
         Some(())
     }
+    // Elements count as they were SENT: the decoders refuse every non-canonical encoding, so on a
+    // correct tree the bytes and the residues determine each other; should a decoder start to
+    // reduce (accept value + M), the two byte strings are different content - the property only
+    // exempts alternative encodings of digests.
     fn elems<E: FieldElement>(bytes: &[u8], out: &mut Vec<u8>) -> Option<()> {
         let mut r = SliceReader::new(bytes);
         while r.has_more_bytes() {
-            let e = E::read_from(&mut r).ok()?;
-            e.write_into(out);
+            let _ = E::read_from(&mut r).ok()?;
         }
+        out.extend_from_slice(bytes);
         Some(())
     }
     fn paths<H: Hasher>(bytes: &[u8], out: &mut Vec<u8>) -> Option<()> {
